@@ -1,6 +1,7 @@
 package main
 
 import (
+	mprops "github.com/magiconair/properties"
 	"bytes"
 	"fmt"
 	"math/rand"
@@ -14,7 +15,7 @@ import (
 )
 
 var c16Segs = []string{"a", "b", "c", "db", "host", "log", "logging", "port", "ports", "x-y", "k_1", "0", "12"}
-var c16Vals = []string{"1", "x", "hello", "true", "a b", "v-1", "0.5", "é世", "http//h", "", "80%", "%d %s - done", "100%%", "a%20b"}
+var c16Vals = []string{"1", "x", "hello", "true", "a b", "v-1", "0.5", "é世", "http//h", "", "80%", "%d %s - done", "100%%", "a%20b", "${a}", "${HOME}", "x${nope}y", "$a {b}"}
 
 func c16Key(r *rand.Rand) string {
 	n := 1 + r.Intn(3)
@@ -219,6 +220,23 @@ func c16Case(r *rand.Rand, kv map[string]string, which int) Case {
 			}
 		}
 		// encoder -> decoder round trip of the flat map, both encoders
+		if pn := guard(func() { c16RoundTrips(kv, conflict, want, &fail) }); pn != "" {
+			fail = append(fail, "panic in an encoder/decoder round trip: "+pn)
+		}
+		desc["text"] = text
+		desc["result"] = first
+		coq := ""
+		if first != nil {
+			coq = "CDecode " + gKV(kv) + " " + gNode(first)
+		}
+		return Case{Kind: "decode", Desc: desc, Coq: coq, Fail: fail, Nontrivial: nt}
+	}
+}
+
+func c16RoundTrips(kv map[string]string, conflict bool, want map[string]any, failp *[]string) {
+	fail := *failp
+	defer func() { *failp = fail }()
+	{
 		for ei, encFn := range []dom.EncoderFunc{props.EncoderFn, common.DefaultFileEncoderProvider("y.properties")} {
 			var b bytes.Buffer
 			if err := encFn(&b, toAnyMap(kv)); err != nil {
@@ -260,17 +278,13 @@ func c16Case(r *rand.Rand, kv map[string]string, which int) Case {
 				}
 			}
 		}
-		desc["text"] = text
-		desc["result"] = first
-		coq := ""
-		if first != nil {
-			coq = "CDecode " + gKV(kv) + " " + gNode(first)
-		}
-		return Case{Kind: "decode", Desc: desc, Coq: coq, Fail: fail, Nontrivial: nt}
 	}
 }
 
 func init() {
+	// the properties parser reports some errors through a process-wide handler whose default exits the
+	// process; a panic instead lets the harness report the input
+	mprops.ErrorHandler = mprops.PanicHandler
 	register(&Prop{
 		ID:   "C16",
 		Rule: "finite sets of (dotted key, plain string value incl. the empty string and values containing %), 1-6 keys of 1-3 path-safe segments drawn from a pool with textual-prefix siblings (log/logging, port/ports, db/dbname-like), half conflict-free and half allowed to conflict (a key that is a dotted prefix of another). kinds: unflatten (utils.Unflatten x50), fromprops (Builder().FromProperties x50), decode (properties text through props.DecoderFn and the file-suffix provider x50; encoder->decoder round trips with EncoderFn, the provider's encoder and DomEncoderFn). Go-side: flatten == kv when conflict-free; all 50 repeats identical for every key set. The resulting tree is compared with the Coq model (sorted-key processing). Non-trivial: key set has a shared dotted prefix. Distinct by Gallina term.",
